@@ -15,7 +15,7 @@ Check (C17_history_refines_from : forall B st ops, 2 <= B -> all_wf B st ->
 
 Check (C17_frame_vec : forall B st o j, 2 <= B -> all_wf B st ->
   match o with
-  | VPush k _ | VPop k | VSet k _ _ | VTrunc k _ | VExtend k _ | VDrop k => j <> k
+  | VPush k _ | VPop k | VSet k _ _ | VTrunc k _ | VExtend k _ | VMapFrom k _ _ | VDrop k => j <> k
   | _ => True
   end ->
   j < length (ivs st) ->
@@ -24,7 +24,7 @@ Check (C17_frame_vec : forall B st o j, 2 <= B -> all_wf B st ->
 
 Check (C17_frame_slice : forall B st o j, 2 <= B -> all_wf B st ->
   match o with
-  | SPush k _ | SPop k | SSet k _ _ | SSlice k _ _ | SExtend k _ | SExtendFrom k _ | SDrop k => j <> k
+  | SPush k _ | SPop k | SSet k _ _ | SSlice k _ _ | SExtend k _ | SExtendFrom k _ | SMap k _ | SDrop k => j <> k
   | _ => True
   end ->
   j < length (iss st) ->
@@ -101,6 +101,18 @@ Check (C17_bit_ops_agree : forall k idx h,
   Nat.land (Nat.shiftr idx (Nat.log2 (2 ^ k) * h)) (2 ^ k - 1) = extract_index (2 ^ k) idx h).
 
 Check (C17_leaf_mask_agrees : forall k idx, Nat.land idx (2 ^ k - 1) = idx mod 2 ^ k).
+Check (C17_iter_mut_from : forall A B (f : A -> A) (v : @vec A) idx bd, 2 <= B -> wf B v ->
+  (idx <= vlen v ->
+   exists v', vmap_from B v idx f bd = Some v' /\ wf B v'
+              /\ to_list v' = firstn idx (to_list v)
+                              ++ (map f (firstn bd (skipn idx (to_list v))) ++ skipn bd (skipn idx (to_list v)))
+              /\ vlen v' = vlen v)
+  /\ (vlen v < idx -> vmap_from B v idx f bd = None)).
+
+Check (C17_slice_iter_mut : forall A B (s : @slice A) (f : A -> A), 2 <= B -> swf B s ->
+  exists s', smap B s f = Some s' /\ swf B s' /\ sl_list s' = map f (sl_list s)).
+
+
 Check (C17_rc_set_refines_frame : forall A B (hp : @heap A) pre v post idx x vv vv',
   hinv hp (pre ++ v :: post) -> vabs hp v = Some vv -> vset B vv idx x = Some vv' ->
   exists hp' v', hvset B hp v idx x = Some (hp', v')
